@@ -1,6 +1,7 @@
 #!/bin/sh
 # Build the framework from files on disk only (offline). The per-tree harness
-# binary is built by ./check itself from /repo's current working tree.
+# binaries are (re)built by ./check itself from /repo's current working tree;
+# building them here only warms the caches.
 set -e
 cd "$(dirname "$0")"
 export GOFLAGS=-mod=mod GOPROXY=off GOSUMDB=off GOTOOLCHAIN=local
@@ -11,4 +12,5 @@ sys.path.insert(0, "lib")
 import simlib
 print("simgo:", simlib.build_simgo(print))
 print("harness:", simlib.build("plain"))
+print("harness (race):", simlib.build("race"))
 PY
